@@ -175,9 +175,18 @@ def f_Tracker_Untrack : List String := [
 
 /-- Tracker_StatusAll -/
 def f_Tracker_StatusAll : List String := [
-  "pininfos, err := spt.localStatus(ctx, true, filter)",
+  "pis, err := spt.statusAll(ctx, filter)",
   "if err != nil {",
   "return nil",
+  "}",
+  "return pis"
+]
+
+/-- Tracker_statusAll -/
+def f_Tracker_statusAll : List String := [
+  "pininfos, err := spt.localStatus(ctx, true, filter)",
+  "if err != nil {",
+  "return nil, err",
   "}",
   "for _, infop := range spt.optracker.GetAll(ctx) {",
   "pininfos[infop.Cid] = infop",
@@ -188,7 +197,7 @@ def f_Tracker_StatusAll : List String := [
   "pis = append(pis, pi)",
   "}",
   "}",
-  "return pis"
+  "return pis, nil"
 ]
 
 /-- Tracker_Status -/
@@ -254,7 +263,10 @@ def f_Tracker_Status : List String := [
 
 /-- Tracker_RecoverAll -/
 def f_Tracker_RecoverAll : List String := [
-  "statuses := spt.StatusAll(ctx, api.TrackerStatusUndefined)",
+  "statuses, err := spt.statusAll(ctx, api.TrackerStatusUndefined)",
+  "if err != nil {",
+  "return nil, err",
+  "}",
   "resp := make([]*api.PinInfo, 0)",
   "for _, st := range statuses {",
   "r, err := spt.recoverWithPinInfo(ctx, st)",
